@@ -208,6 +208,10 @@ func HandleSelectStmt(p *SelectPlan, stmt *ast.SelectStmt) error {
 			p.columnCount = len(stmt.Fields.Fields)
 		}
 
+		if err := handleExtraAggregateFields(p, stmt); err != nil {
+			return fmt.Errorf("handle extra aggregate fields error: %v", err)
+		}
+
 		if err := checkDistinctAggregates(stmt); err != nil {
 			return err
 		}
@@ -237,6 +241,30 @@ func HandleSelectStmt(p *SelectPlan, stmt *ast.SelectStmt) error {
 
 	p.sqls = sqls
 
+	return nil
+}
+
+// An aggregate function that only appears in ORDER BY is added to the field list
+// as an extra column; its per-shard values have to be merged like those of the
+// selected aggregate functions, otherwise the rows are sorted by the value of
+// the first shard.
+func handleExtraAggregateFields(p *SelectPlan, stmt *ast.SelectStmt) error {
+	if stmt.Fields == nil {
+		return nil
+	}
+	for i := p.originColumnCount; i < len(stmt.Fields.Fields); i++ {
+		agg, ok := stmt.Fields.Fields[i].Expr.(*ast.AggregateFuncExpr)
+		if !ok {
+			continue
+		}
+		merger, err := CreateAggregateFunctionMerger(agg, i)
+		if err != nil {
+			return fmt.Errorf("create aggregate function merger error, column index: %d, err: %v", i, err)
+		}
+		if err := p.setAggregateFuncMerger(i, merger); err != nil {
+			return fmt.Errorf("set aggregate function merger error, column index: %d, err: %v", i, err)
+		}
+	}
 	return nil
 }
 
